@@ -395,8 +395,8 @@ Definition deserialize_v4 (pre_longs sh : N) (bs : list N) : outcome csk :=
         obind (if ordered then ensure_ordered entries else Ok tt) (fun _ =>
         Ok (mkC entries theta seed_hash ordered empty))))))))))).
 
-(* deserialize_with_seed *)
-Definition c_deserialize (sh : N) (bytes : list N) : outcome csk :=
+(* deserialize_with_seed after the seed check ([sh] = the reader's non-zero seed hash) *)
+Definition c_deser_body (sh : N) (bytes : list N) : outcome csk :=
   obind (rd 1 bytes) (fun '(pre_longs, bs) =>
   obind (rd 1 bs) (fun '(ser_ver, bs) =>
   obind (rd 1 bs) (fun '(family_id, bs) =>
@@ -407,3 +407,8 @@ Definition c_deserialize (sh : N) (bytes : list N) : outcome csk :=
   else if ser_ver =? 3 then deserialize_v3 pre_longs sh bs
   else if ser_ver =? 4 then deserialize_v4 pre_longs sh bs
   else Err))).
+
+(* deserialize_with_seed: a seed whose seed hash is zero is rejected first (try_compute_seed_hash(seed) = None;
+   the repaired code: compute_seed_hash would panic on it) *)
+Definition c_deserialize (sh : N) (bytes : list N) : outcome csk :=
+  if sh =? 0 then Err else c_deser_body sh bytes.
